@@ -11,8 +11,6 @@ stdout: id \t <model output> \t <spec verdict> \t <inK>
 -/
 open ErgVerif ErgVerif.C01
 
-def parseCls (s : String) : Option Cls := none
-
 def parseConst : Sexp → Option Const
   | .list [.atom "int", .atom i] => i.toInt?.map .int
   | .list [.atom "str", .str s] => some (.str s)
@@ -56,6 +54,10 @@ partial def parseExpr : Sexp → Option Expr
     let e ← parseExpr e; let w ← parseW sw ty; pure (.neg e w)
   | .list [.atom "not", e, sw, ty] => do
     let e ← parseExpr e; let w ← parseW sw ty; pure (.not e w)
+  | .list [.atom "ite", c, a, b, sw, ty] => do
+    -- branch bodies are emitted through `emit_chunk`: chunk form (no wrapper on the branch's own node)
+    let c ← parseExpr c; let a ← parseExpr a; let b ← parseExpr b; let w ← parseW sw ty
+    pure (.ite c (stripWrap a) (stripWrap b) w)
   | _ => none
 
 def parseStmt : Sexp → Option Stmt
@@ -82,6 +84,8 @@ def parseInstr : Sexp → Option Instr
   | .list [.atom "extArg", .atom n] => n.toNat?.map .extArg
   | .list [.atom "jumpIfFalseOrPop", .atom n] => n.toNat?.map .jumpIfFalseOrPop
   | .list [.atom "jumpIfTrueOrPop", .atom n] => n.toNat?.map .jumpIfTrueOrPop
+  | .list [.atom "popJumpIfFalse", .atom n] => n.toNat?.map .popJumpIfFalse
+  | .list [.atom "jumpForward", .atom n] => n.toNat?.map .jumpForward
   | .list [.atom "binaryOp", .atom op] => (parseBinOp op).map .binaryOp
   | .list [.atom "compareOp", .atom op] => (parseCmpOp op).map .compareOp
   | .list [.atom "call", .atom n] => n.toNat?.map .call
@@ -108,6 +112,8 @@ def instrS : Instr → String
   | .extArg n => "(extArg " ++ toString n ++ ")"
   | .jumpIfFalseOrPop n => "(jumpIfFalseOrPop " ++ toString n ++ ")"
   | .jumpIfTrueOrPop n => "(jumpIfTrueOrPop " ++ toString n ++ ")"
+  | .popJumpIfFalse n => "(popJumpIfFalse " ++ toString n ++ ")"
+  | .jumpForward n => "(jumpForward " ++ toString n ++ ")"
   | .binaryOp op => "(binaryOp " ++ binS op ++ ")"
   | .compareOp op => "(compareOp " ++ cmpS op ++ ")"
   | .call n => "(call " ++ toString n ++ ")"
